@@ -396,9 +396,11 @@ def _gen_dom(rng, kind):
         size = rng.choice([1, 2, 3, 5, 8, 50])
         if cast_int:
             lo = float(rng.randint(1, 30)) if log else float(rng.randint(-30, 30))
-            if rng.random() < 0.3:
+            if rng.random() < (0.4 if log else 0.15):
                 lo += 0.5
-            hi = lo * rng.choice([1, 2, 10, 1000]) if log else lo + rng.choice([0, 1, 1.5, 3, 10, 1000])
+            hi = lo * rng.choice([1, 2, 10, 100, 1000]) if log else lo + rng.choice([0, 1, 1.5, 3, 10, 1000])
+            if log:
+                size = rng.choice([1, 2, 3, 5, 8, 10, 12])
         elif log:
             lo, hi = gen_log_bounds(rng)
         else:
@@ -619,6 +621,10 @@ def run_domain_ops(case, name, which, desc, dom):
             if is_quantised_int_nondivisible(desc) and type(v) is int:
                 case.finding("c07:qrandint-sample-outside-bounds",
                              f"{desc['k']}({desc['lo']},{desc['hi']},{desc['q']}) sampled {v!r}: {why} (quantisation step does not divide the bounds)",
+                             {"domain": desc, "u": u, "value": repr(v)})
+            elif desc["k"] == "lograndint" and type(v) is int and desc["hi"] >= 2 ** 40:
+                case.finding("c07:lograndint-sample-outside-bounds-huge",
+                             f"lograndint({desc['lo']},{desc['hi']}) sampled {v!r} with draw u={u!r}: {why} (exp(log(upper)) is off by more than 1/2 for bounds of this size and the sampler does not clip)",
                              {"domain": desc, "u": u, "value": repr(v)})
             else:
                 case.finding("c07:sample-not-member:" + tag, f"{tag} sample {v!r}: {why}", {"domain": desc, "u": u, "value": repr(v)})
@@ -874,6 +880,12 @@ def run_case(spec):
         case.count("roundtrip")
         for n in names:
             if not same_value(descs[n], doms[n], back[n], cfg[n]):
+                if descs[n]["k"] == "logfinrange" and descs[n]["cast_int"]:
+                    case.finding("c07:logfinrange-castint-roundtrip-changes-value",
+                                 f"logfinrange({descs[n]['lo']!r},{descs[n]['hi']!r},{descs[n]['size']},cast_int=True) with values {doms[n].values[:12]!r}: "
+                                 f"from_ndarray(to_ndarray({cfg[n]!r})) = {back[n]!r} (nearest grid point in log space of the rounded value is another entry)",
+                                 {"domain": descs[n], "value": repr(cfg[n]), "back": repr(back[n])})
+                    continue
                 case.finding("c07:roundtrip-mismatch:" + kind_tag(descs[n]),
                              f"{kind_tag(descs[n])}: from_ndarray(to_ndarray({cfg[n]!r})) = {back[n]!r}",
                              {"domain": descs[n], "value": repr(cfg[n]), "back": repr(back[n])})
